@@ -48,4 +48,7 @@ DevAP == {"APNotMarked"}
 DevCache == {"StaleCacheHit"}
 DevHashEnd == {"HashEndAsWedgeEnd"}
 DevHashLigand == {"HashDisplayAsLigand"}
+DevMemo == {"MemoisedMolecule"}
+DevMemoContent == {"MemoisedMolecule"}
+DevMemoCharge == {"MemoisedMolecule"}
 =============================================================================
